@@ -8,6 +8,7 @@ From Coq Require Import List Arith NArith Bool Lia ZifyN ZifyNat ZifyBool.
 From Verif Require Import Model.Wire Proofs.WireP Proofs.WireReadP Proofs.WireDecP.
 Import ListNotations.
 Local Open Scope N_scope.
+Unset Lia Cache.
 
 (* the streams readOpen accepts: header announcing L, the ten fixed octets with
    version 4 and a legal hold time, ANY option-length octet, then capability
@@ -135,33 +136,188 @@ Proof.
       2:{ destruct (m4 =? 0); apply pair5_inv in H; destruct H as (H & _); discriminate H. }
       apply N.eqb_eq in E4. rewrite E4 in H, Em4. clear E4 m4.
       destruct (n3 - 4 =? 0) eqn:E3; [|apply pair5_inv in H; destruct H as (H & _); discriminate H].
-      assert (Hn3 : n3 = 4) by lia.
-      destruct (take_drop 4 s1 ltac:(lia)) as [Hs1 Hd]. set (d := takeN 4 s1) in *. set (s2 := dropN 4 s1) in *.
+      assert (Hf : n3 = 4 /\ 6 <= n2 /\ 6 <= n1 /\ 4 <= len s1) by (clear - Em4 E3 Hge; lia).
+      clear Em4 E3 Em Hge. destruct Hf as (Hn3 & Hf2 & Hf1 & Hfs).
+      destruct (take_drop 4 s1 Hfs) as [Hs1 Hd]. set (d := takeN 4 s1) in *. set (s2 := dropN 4 s1) in *.
       apply IH in H. destruct H as (cs & Hs2 & Hn2 & Hle & Hn1' & Hwf & Hr).
       exists ({| c_code := code; c_val := d |} :: cs).
-      cbn [map concat fold_left]. rewrite len_app, len_ser_cap. unfold ser_cap at 1. cbn [c_code c_val]. rewrite Hd. clearbody d s2.
-      repeat split.
-      * rewrite Hn3. rewrite Hs1 at 1. rewrite Hs2. cbn [app]. rewrite <- app_assoc. reflexivity.
-      * lia.
-      * lia.
-      * lia.
+      cbn [map concat fold_left]. rewrite len_app, len_ser_cap. unfold ser_cap at 1. cbn [c_code c_val]. rewrite Hd.
+      clearbody d s2.
+      assert (Hnum : n2 = 2 + 4 + len (concat (map ser_cap cs)) /\ n2 <= n1 /\ n1' = n1 - n2)
+        by (clear - Hf2 Hf1 Hn2 Hle Hn1'; lia).
+      destruct Hnum as (Hna & Hnb & Hnc).
+      split; [|split; [exact Hna|split; [exact Hnb|split; [exact Hnc|split]]]].
+      * rewrite Hn3. rewrite Hs1, Hs2. cbn [app]. rewrite <- app_assoc. reflexivity.
       * constructor; [|assumption]. unfold wf_cap. cbn [c_code c_val]. intros _. exact Hd.
       * rewrite Hr. f_equal. unfold step_cap. cbn [c_code c_val].
         destruct (code =? 65) eqn:E65; [reflexivity|]. cbn [orb] in Ec. rewrite Ec. reflexivity.
     + remember (N.min (n2 - 2) (N.min (n1 - 2) (N.min n3 (len s1)))) as md eqn:Emd.
       destruct (n3 - md =? 0) eqn:E3; [|apply pair5_inv in H; destruct H as (H & _); discriminate H].
-      assert (Hmd : md = n3) by lia. subst md.
-      destruct (take_drop n3 s1 ltac:(lia)) as [Hs1 Hd]. set (v := takeN n3 s1) in *. set (s2 := dropN n3 s1) in *.
-      rewrite Hmd in H. fold s2 in H.
+      assert (Hf : md = n3 /\ n3 + 2 <= n2 /\ n3 + 2 <= n1 /\ n3 <= len s1) by (clear - Emd E3 Hge; lia).
+      clear Emd E3 Em Hge. destruct Hf as (Hmd & Hf2 & Hf1 & Hfs). rewrite Hmd in H. clear Hmd md.
+      destruct (take_drop n3 s1 Hfs) as [Hs1 Hd]. set (v := takeN n3 s1) in *. set (s2 := dropN n3 s1) in *.
       apply IH in H. destruct H as (cs & Hs2 & Hn2 & Hle & Hn1' & Hwf & Hr).
       exists ({| c_code := code; c_val := v |} :: cs).
-      cbn [map concat fold_left]. rewrite len_app, len_ser_cap. unfold ser_cap at 1. cbn [c_code c_val]. rewrite Hd. clearbody v s2.
+      cbn [map concat fold_left]. rewrite len_app, len_ser_cap. unfold ser_cap at 1. cbn [c_code c_val]. rewrite Hd.
+      clearbody v s2.
       apply orb_false_iff in Ec. destruct Ec as [E65 E1].
-      repeat split.
-      * rewrite Hs1 at 1. rewrite Hs2. cbn [app]. rewrite <- app_assoc. reflexivity.
-      * lia.
-      * lia.
-      * lia.
+      assert (Hnum : n2 = 2 + n3 + len (concat (map ser_cap cs)) /\ n2 <= n1 /\ n1' = n1 - n2)
+        by (clear - Hf2 Hf1 Hn2 Hle Hn1'; lia).
+      destruct Hnum as (Hna & Hnb & Hnc).
+      split; [|split; [exact Hna|split; [exact Hnb|split; [exact Hnc|split]]]].
+      * rewrite Hs1, Hs2. cbn [app]. rewrite <- app_assoc. reflexivity.
       * constructor; [|assumption]. unfold wf_cap. cbn [c_code c_val]. intros [Hc | Hc]; subst code; discriminate.
       * rewrite Hr. f_equal. unfold step_cap. cbn [c_code c_val]. rewrite E65, E1. reflexivity.
+Qed.
+
+Lemma pair4_inv {A B C D} (a a' : A) (b b' : B) (c c' : C) (d d' : D) :
+  (a, b, c, d) = (a', b', c', d') -> a = a' /\ b = b' /\ c = c' /\ d = d'.
+Proof. intros H. inversion H. auto. Qed.
+
+Lemma read_opts_ok_inv fuel : forall s n1 r s' n1' r',
+  read_opts fuel s n1 r = (None, s', n1', r') ->
+  exists ps, s = concat (map ser_param ps) ++ s' /\ Forall caps_only ps /\
+             len (concat (map ser_param ps)) <= n1 /\ n1' = n1 - len (concat (map ser_param ps)) /\
+             (n1' = 0 \/ s' = []) /\ r' = fold_left step_cap (concat (map param_caps ps)) r.
+Proof.
+  induction fuel as [|fuel IH]; intros s n1 r s' n1' r' H; [cbn in H; discriminate|].
+  cbn [read_opts] in H. rewrite got1 in H.
+  remember (N.min n1 (N.min 2 (len s))) as m eqn:Em.
+  assert (Hm : m = 0 \/ m = 1 \/ m = 2) by lia. destruct Hm as [-> | [-> | ->]].
+  - cbn [N.eqb] in H. apply pair4_inv in H. destruct H as (_ & Hs & Hn1 & Hr).
+    exists []. cbn [map concat app fold_left]. unfold dropN in Hs. cbn in Hs.
+    change (len (@nil N)) with 0.
+    assert (Hz : n1 = 0 \/ s = []).
+    { destruct s; [right; reflexivity|]. left. rewrite len_cons in Em. lia. }
+    subst s' r'. split; [reflexivity|]. split; [constructor|]. split; [lia|]. split; [lia|]. split; [|reflexivity].
+    destruct Hz as [Hz | Hz]; [left; lia | right; assumption].
+  - cbn [N.eqb Pos.eqb] in H. discriminate.
+  - cbn [N.eqb Pos.eqb] in H.
+    destruct s as [|ty [|n2 s1]]; try (cbn [len length N.of_nat] in Em; lia).
+    change (takeN 2 (ty :: n2 :: s1)) with [ty; n2] in H.
+    change (dropN 2 (ty :: n2 :: s1)) with s1 in H. cbn [nth] in H.
+    assert (Hge : 2 <= n1) by lia. clear Em.
+    destruct (negb (ty =? 2)) eqn:Et; [apply pair4_inv in H; destruct H as (H & _); discriminate H|].
+    apply negb_false_iff, N.eqb_eq in Et. subst ty.
+    destruct (read_caps (S (length s1)) s1 (n1 - 2) n2 r) as [[[[e2 s2] n1b] n2b] r2] eqn:Ec.
+    destruct e2; [apply pair4_inv in H; destruct H as (H & _); discriminate H|].
+    destruct (n2b =? 0) eqn:E0; [|apply pair4_inv in H; destruct H as (H & _); discriminate H].
+    apply N.eqb_eq in E0. subst n2b.
+    apply read_caps_ok_inv in Ec. destruct Ec as (cs & Hs1 & Hn2 & Hle & Hn1b & Hcs & Hr2).
+    apply IH in H. destruct H as (ps & Hs2 & Hps & Hlen & Hn1' & Hor & Hr).
+    exists (PCaps cs :: ps). cbn [map concat ser_param param_caps].
+    set (B := concat (map ser_cap cs)) in *. set (T := concat (map ser_param ps)) in *.
+    assert (HlB : len ([2; len B] ++ B) = 2 + len B) by (rewrite len_app; reflexivity).
+    rewrite len_app, HlB.
+    assert (Hnum : 2 + len B + len T <= n1 /\ n1' = n1 - (2 + len B + len T))
+      by (clear - Hge Hn2 Hle Hn1b Hlen Hn1'; lia).
+    destruct Hnum as (Hna & Hnb).
+    split; [|split; [|split; [exact Hna|split; [exact Hnb|split; [exact Hor|]]]]].
+    + rewrite Hs1, Hs2, <- Hn2. cbn [app]. rewrite <- !app_assoc. reflexivity.
+    + constructor; [exists cs; split; [reflexivity | assumption] | assumption].
+    + rewrite fold_left_app, <- Hr2. exact Hr.
+Qed.
+
+(* the fixed part of the message: marker, length, type, version, AS, hold time, id, option length *)
+Lemma list29 (l : list N) : 29 <= len l ->
+  exists h t, l = h ++ t /\ length h = 29%nat.
+Proof.
+  intros H. exists (firstn 29 l), (skipn 29 l). split; [symmetry; apply firstn_skipn|].
+  rewrite firstn_length. unfold len in H. lia.
+Qed.
+
+Lemma pair_lt a b : a < 256 -> b < 256 -> a * 256 + b < 65536.
+Proof. intros. lia. Qed.
+
+(* => : whatever readOpen accepts is such a stream *)
+Theorem read_open_accepts_inv bs r n : wfb bs -> read_open bs = (ROk r, n) ->
+  exists L asn16 hold id optlen ps extra,
+    bs = open_stream L asn16 hold id optlen ps extra /\ open_stream_ok L asn16 hold id ps extra.
+Proof.
+  intros Hw H. unfold read_open, read_open_gen in H. rewrite got0 in H.
+  remember (N.min 19 (len bs)) as m eqn:Em.
+  destruct (full_err 19 m) eqn:Ef; [inversion H|].
+  assert (Hm : m = 19 /\ 19 <= len bs).
+  { unfold full_err in Ef. destruct (m =? 19) eqn:E; [lia|]. destruct (m =? 0); discriminate. }
+  destruct Hm as [-> Hl19]. clear Ef Em.
+  destruct (negb (forallb (N.eqb 255) (firstn 16 (takeN 19 bs)))) eqn:Emk; [inversion H|].
+  apply negb_false_iff in Emk.
+  destruct (nth 18 (takeN 19 bs) 0 =? 3) eqn:E3; [inversion H|].
+  destruct (negb (nth 18 (takeN 19 bs) 0 =? 1)) eqn:E1; [inversion H|].
+  apply negb_false_iff, N.eqb_eq in E1.
+  rewrite hlen_hdr in H by assumption. set (L := hdr_len bs) in *.
+  destruct (L <? 29) eqn:EL; [inversion H|].
+  rewrite got1 in H. remember (N.min (L - 19) (N.min 10 (len (dropN 19 bs)))) as m10 eqn:Em10.
+  destruct (full_err 10 m10) eqn:Ef10; [inversion H|].
+  assert (Hm10 : m10 = 10).
+  { unfold full_err in Ef10. destruct (m10 =? 10) eqn:E; [lia|]. destruct (m10 =? 0); discriminate. }
+  rewrite Hm10 in *. clear Ef10 Hm10.
+  assert (Hl29 : 29 <= len bs) by (rewrite len_dropN in Em10; lia).
+  (* name the 29 fixed octets *)
+  unfold len in Hl29.
+  do 29 (destruct bs as [|? bs]; [cbn [length] in Hl29; lia|]).
+  clear Hl19 Hl29 Em10.
+  change (takeN 19 (n0 :: n1 :: n2 :: n3 :: n4 :: n5 :: n6 :: n7 :: n8 :: n9 :: n10 :: n11 :: n12 :: n13 :: n14 :: n15 :: n16 :: n17 :: n18 :: n19 :: n20 :: n21 :: n22 :: n23 :: n24 :: n25 :: n26 :: n27 :: n28 :: bs))
+    with [n0; n1; n2; n3; n4; n5; n6; n7; n8; n9; n10; n11; n12; n13; n14; n15; n16; n17; n18] in *.
+  change (dropN 19 (n0 :: n1 :: n2 :: n3 :: n4 :: n5 :: n6 :: n7 :: n8 :: n9 :: n10 :: n11 :: n12 :: n13 :: n14 :: n15 :: n16 :: n17 :: n18 :: n19 :: n20 :: n21 :: n22 :: n23 :: n24 :: n25 :: n26 :: n27 :: n28 :: bs))
+    with (n19 :: n20 :: n21 :: n22 :: n23 :: n24 :: n25 :: n26 :: n27 :: n28 :: bs) in *.
+  change (takeN 10 (n19 :: n20 :: n21 :: n22 :: n23 :: n24 :: n25 :: n26 :: n27 :: n28 :: bs))
+    with [n19; n20; n21; n22; n23; n24; n25; n26; n27; n28] in H.
+  change (dropN 10 (n19 :: n20 :: n21 :: n22 :: n23 :: n24 :: n25 :: n26 :: n27 :: n28 :: bs)) with bs in H.
+  cbn [nth firstn skipn] in H, Emk, E1.
+  change (be [n20; n21] 0) with (n20 * 256 + n21) in H. change (be [n22; n23] 0) with (n22 * 256 + n23) in H.
+  destruct (negb (n19 =? 4)) eqn:Ev; [inversion H|]. apply negb_false_iff, N.eqb_eq in Ev.
+  set (hold := n22 * 256 + n23) in *. set (asn16 := n20 * 256 + n21) in *.
+  destruct (negb (hold =? 0) && (hold <? 3)) eqn:Eh; [inversion H|].
+  destruct (read_opts (S (length bs)) bs (L - 19 - 10)
+              {| r_asn := asn16; r_hold := hold; r_mp4 := false; r_mp6 := false; r_fbasn := false |})
+    as [[[e s2] n1'] r'] eqn:Eo.
+  destruct e; [inversion H|].
+  apply read_opts_ok_inv in Eo. destruct Eo as (ps & Hbs & Hps & Hlen & Hn1' & Hor & _).
+  (* bytes *)
+  unfold wfb in Hw.
+  repeat match goal with Hw : Forall _ (_ :: _) |- _ => inversion Hw as [|? ? ?Hb ?Hw]; clear Hw; subst end.
+  cbn [forallb] in Emk. repeat (apply andb_true_iff in Emk; destruct Emk as [?Hk Emk]).
+  repeat match goal with Hk : (255 =? _) = true |- _ => apply N.eqb_eq in Hk; subst end.
+  assert (HL : L = n16 * 256 + n17) by reflexivity.
+  exists L, asn16, hold, [n24; n25; n26; n27], n28, ps, s2.
+  split.
+  - unfold open_stream.
+    assert (E16 : u16 L = [n16; n17]) by (rewrite HL; apply b_of_pair; assumption).
+    assert (Ea : u16 asn16 = [n20; n21]) by (apply b_of_pair; assumption).
+    assert (Eh' : u16 hold = [n22; n23]) by (apply b_of_pair; assumption).
+    rewrite E16, Ea, Eh'. reflexivity.
+  - unfold open_stream_ok. split; [reflexivity|].
+    assert (asn16 < 65536 /\ hold < 65536 /\ L < 65536).
+    { unfold asn16, hold. rewrite HL. repeat split; apply pair_lt; assumption. }
+    repeat split; try tauto; try lia.
+    destruct Hor as [Hz | Hz]; [left; lia|].
+    destruct (N.eq_dec L (29 + len (concat (map ser_param ps)))) as [E | E]; [left; exact E | right; split; [lia | assumption]].
+Qed.
+
+(* the acceptance set of readOpen, exactly *)
+Theorem read_open_accepts_iff bs : wfb bs ->
+  ((exists r n, read_open bs = (ROk r, n)) <->
+   (exists L asn16 hold id optlen ps extra,
+      bs = open_stream L asn16 hold id optlen ps extra /\ open_stream_ok L asn16 hold id ps extra)).
+Proof.
+  intros Hw. split.
+  - intros (r & n & H). exact (read_open_accepts_inv bs r n Hw H).
+  - intros (L & asn16 & hold & id & optlen & ps & extra & -> & Hok).
+    eexists. eexists. apply read_open_stream. exact Hok.
+Qed.
+
+(* strictly more liberal than the RFC decoder: wrong Opt Parm Len octet, and a
+   stream that ends at a parameter boundary before the announced length *)
+Lemma read_open_more_liberal :
+  (exists bs r n, wfb bs /\ read_open bs = (ROk r, n) /\ dec_msg true bs = None /\ hdr_len bs = len bs) /\
+  (exists bs r n, wfb bs /\ read_open bs = (ROk r, n) /\ len bs < hdr_len bs).
+Proof.
+  split.
+  - exists (marker ++ [0; 31; 1; 4; 252; 0; 0; 90; 10; 0; 0; 1; 7; 2; 0]). eexists. eexists.
+    split; [|split; [vm_compute; reflexivity | split; vm_compute; reflexivity]].
+    unfold marker; cbn [repeat app]. repeat (constructor; [reflexivity|]). constructor.
+  - exists (marker ++ [0; 49; 1; 4; 252; 0; 0; 90; 10; 0; 0; 1; 20; 2; 0]). eexists. eexists.
+    split; [|split; [vm_compute; reflexivity | vm_compute; reflexivity]].
+    unfold marker; cbn [repeat app]. repeat (constructor; [reflexivity|]). constructor.
 Qed.
